@@ -11,6 +11,7 @@ import (
 	"errors"
 	"fmt"
 	"io"
+	"strings"
 	"sync"
 )
 
@@ -63,6 +64,8 @@ func (s *dbState) faultErr(kind string) error {
 		return sql.ErrTxDone
 	case 5:
 		return io.EOF
+	case 7:
+		return errors.New(`pq: relation "t" already exists`) // an error TEXT some code might special-case
 	case 6:
 		// (sql.ErrNoRows is deliberately absent: QueryRow().Scan() reports "no rows" by that very value, so a driver
 		// returning it from the existence query IS the answer "table absent", not a failed step)
@@ -206,6 +209,16 @@ func (r *recRows) Next(dest []driver.Value) error {
 	return nil
 }
 func (r *recRows) ColumnTypeDatabaseTypeName(i int) string { return r.rs.types[i] }
+
+// ColumnTypePrecisionScale: drivers such as pq / pgx report NUMERIC(p,s) metadata; here parsed from the declared type
+func (r *recRows) ColumnTypePrecisionScale(i int) (precision, scale int64, ok bool) {
+	t := r.rs.types[i]
+	var p, s int64
+	if n, _ := fmt.Sscanf(t[strings.IndexByte(t+"(", '('):], "(%d,%d)", &p, &s); n == 2 {
+		return p, s, true
+	}
+	return 0, 0, false
+}
 
 func openFake(st *dbState) *sql.DB {
 	db := sql.OpenDB(recConnector{st: st})
